@@ -890,6 +890,8 @@ fn throttle_scenario(sc: &ThrSc, hang: Duration) -> bool {
     }
     net.set_budget(None);
     if !ok_all {
+        // dropping a Channel closes it, which would block for good on a connection that has stopped moving
+        std::mem::forget(back);
         ctx.end(&net, false);
         return false;
     }
@@ -900,6 +902,7 @@ fn throttle_scenario(sc: &ThrSc, hang: Duration) -> bool {
         }
         Err(_) => {
             gev(json!({"ev":"open_end","res":"hang"}));
+            std::mem::forget(back);
             ctx.end(&net, false);
             return false;
         }
